@@ -67,6 +67,10 @@ Proof.
     all: try congruence.
     all: match goal with E : lookup _ (cstreams _) = Some ?c, K : c_closed ?c = false |- _ =>
            erewrite LS in K; eauto; discriminate end.
+  - (* CWriteBad *) destr H; constructor; simpl; auto; try (intros; congruence); try (intros ?; apply LS; congruence); try tn_contra TN; try upd LS TC; eauto.
+    all: try congruence.
+    all: match goal with E : lookup _ (cstreams _) = Some ?c, K : c_closed ?c = false |- _ =>
+           erewrite LS in K; eauto; discriminate end.
   - (* CRead *) destr H; constructor; simpl; auto; try (intros; congruence); try (intros ?; apply LS; congruence); try tn_contra TN; try upd LS TC; unfold c_do_read.
     all: try (destruct (c_closed c) eqn:K; simpl; eauto; destruct (c_events c); simpl; discriminate).
     all: rewrite (LS L _ _ Heqo); reflexivity.
@@ -103,6 +107,7 @@ Proof.
       destruct (s_events s0); simpl; intros K; rewrite (SL _ _ Heqo K) in B; discriminate.
     + rewrite s_trigger_closed. eauto.
   - (* SWrite *) destr H; constructor; simpl; auto; try (intros; congruence); try (intros ?; apply LS; congruence); try tn_contra TN; try upd LS TC; eauto; discriminate.
+  - (* SWriteBad *) destr H; constructor; simpl; auto; try (intros; congruence); try (intros ?; apply LS; congruence); try tn_contra TN; try upd LS TC; eauto; discriminate.
   - (* SRead *) destr H; constructor; simpl; auto; try (intros; congruence); try (intros ?; apply LS; congruence); try tn_contra TN; try upd LS TC.
     + unfold s_do_read. destruct (s_closed s0) eqn:K; simpl; eauto.
       destruct (s_events s0); simpl; discriminate.
